@@ -207,6 +207,11 @@ def encode_order(ctx, rep):
         rep.fail("R3.4", "found", "Codec::encode not found")
         return
     rep.fn(b.name)
+    from mirq import inline_calls
+    ib = inline_calls(b, lambda d: d.startswith("insim::net::codec::") and "{closure" not in d and not d.endswith(("Codec::encode", "Codec::decode", "Codec::mode", "Codec::new")), depth=3)
+    if ib is not b:
+        rep.notes.append("R3.4: private helper(s) of insim::net::codec inlined into Codec::encode")
+        b = ib
     cur = b.calls_to(r"io::cursor::Cursor::<T>::new$")
     W0 = b.calls_to(r"^std::io::Write::write$")
     P = [(bb, t) for bb, t in b.calls_to(r"binrw::binwrite::BinWrite::write$") if callee(t)[2] and callee(t)[2][0] == "insim::packet::Packet"]
@@ -249,7 +254,10 @@ def encode_order(ctx, rep):
     # encode_length(self.mode(), position as usize)
     a0 = b.origin(EL[0][1]["args"][0])
     a1 = b.origin(EL[0][1]["args"][1])
-    okm = any(c[1].endswith("Codec::mode") for c in origin_calls(a0))
+    m0 = strip_refs(a0)
+    while m0[0] == "deref":
+        m0 = strip_refs(m0[1])
+    okm = any(c[1].endswith("Codec::mode") for c in origin_calls(a0)) or (m0[0] == "field" and m0[3] == "mode" and strip_refs(m0[1]) in (("arg", 1), ("deref", ("arg", 1))))
     x = a1
     while x[0] == "cast":
         x = x[4]
